@@ -1,0 +1,16 @@
+//go:build verif
+
+package autofile
+
+import "github.com/tendermint/tendermint/libs/verifhook"
+
+// verifSynced reports the size of the file right after a Sync; it is called
+// with af.mtx held (deferred inside Sync).
+func verifSynced(af *AutoFile) {
+	if af.file == nil {
+		return
+	}
+	if st, err := af.file.Stat(); err == nil {
+		verifhook.Point("autofile.synced", af.Path, st.Size())
+	}
+}
